@@ -5,7 +5,7 @@ from common import *
 PAGE = 4096
 LENS = [0, 1, 16, 32, 64, 4095, 4096, 4097, 8192, 8193]
 ARR_LENS = [1, 16, 32, 64, 4095, 4096, 4097, 8192, 8193]
-RESULT_OPS = {"lock", "unlock", "ro", "rw", "na", "fsl", "fsro", "newlocked", "genlocked", "newrolocked", "genrolocked"}
+RESULT_OPS = {"lock", "unlock", "ro", "rw", "na", "fsl", "fsro", "newlocked", "genlocked", "newrolocked", "genrolocked", "serde"}
 EXPECT_PERM = {"P": "w", "UR": "w", "LR": "w", "URO": "r", "LRO": "r", "UNA": "n", "LNA": "n"}
 NEXT = {  # type-state graph: state → op → state   (what the safe API offers)
     "P": {"lock": "LR"},
@@ -97,7 +97,8 @@ def prot_predicate(line, fail_injected=False):
                 return "%s panicked" % t
             if res == "err" and not fail_injected and name in RESULT_OPS:
                 # the only legitimate error without fault injection: locking an inaccessible (PROT_NONE) region
-                wrong_len = name in ("fsl", "fsro") and kind == "arr" and t.split(":")[1].split("@")[0] != str(n)
+                wrong_len = (name in ("fsl", "fsro") and kind == "arr" and t.split(":")[1].split("@")[0] != str(n)) or \
+                            (name == "serde" and kind == "arr" and t.split(":")[2].split("@")[0] != str(n))
                 if not (name == "lock" and idx < len(prev_regs) and prev_regs[idx].startswith("UNA")) and not wrong_len:
                     return "%s failed without a refused lock" % t
             if rel != "-":
